@@ -1660,7 +1660,10 @@ class Engine:
             if f.id in self.registry:
                 args = [self.eval(a, st) for a in node.args]
                 kw = self._kwargs(node, st)
-                return self.apply_contract(self.registry[f.id], args, kw, st, node)
+                c = self.registry[f.id]
+                r = self.apply_contract(c, args, kw, st, node)
+                self._writeback_modified(c, node, 0, st)
+                return r
             raise Unsupported(f"call to {f.id} (no contract)", node)
         if isinstance(f, ast.Attribute):
             return self.method_call(node, st, hint)
@@ -1718,6 +1721,23 @@ class Engine:
                 st.assume(cl)
         self._post_vals = post_vals
         return r
+
+    def _writeback_modified(self, c: Contract, node: ast.Call, offset: int, st: State):
+        """The callee's contract modifies some of its arguments: store their new values through the argument
+        expressions (names / attributes / subscripts).  `offset`: 1 when the first parameter is the receiver."""
+        post = dict(self._post_vals)
+        names = list(c.params)
+        for p in c.modifies:
+            i = names.index(p) - offset
+            if i < 0:
+                continue  # the receiver: handled by the caller
+            expr = node.args[i] if i < len(node.args) and not isinstance(node.args[i], ast.Starred) else \
+                next((k.value for k in node.keywords if k.arg == p), None)
+            if expr is None:
+                continue  # defaulted argument: a fresh object the caller cannot see
+            if not isinstance(expr, (ast.Name, ast.Attribute, ast.Subscript)):
+                raise Unsupported(f"argument for the modified parameter {p} of {c.name} is not an l-value", node)
+            self.assign(expr, post[p], st, node, writeback=True)
 
     def _kwargs(self, node: ast.Call, st: State) -> dict:
         kw = {}
@@ -1779,9 +1799,12 @@ class Engine:
             if cname in self.registry:
                 c = self.registry[cname]
                 r = self.apply_contract(c, [recv] + args, kw, st, node)
+                post = dict(self._post_vals)
                 first = next(iter(c.params))
                 if first in c.modifies:
-                    self.assign(f.value, self._post_vals[first], st, node, writeback=True)
+                    self.assign(f.value, post[first], st, node, writeback=True)
+                self._post_vals = post
+                self._writeback_modified(c, node, 1, st)
                 return r
             raise Unsupported(f"method {cname} (no contract)", node)
         if isinstance(recv.ty, TSeq):
@@ -1862,6 +1885,26 @@ class Engine:
                 return VNone
             if name == "keys" and not args:
                 return self.dict_order(recv, st)
+        if isinstance(recv.ty, TSet) and name in ("add", "discard") and len(args) == 1:
+            ty = recv.ty
+            x = self.coerce(args[0], ty.key, st, node)
+            had = z3.Select(ty.mem(recv.t), x.t)
+            if name == "add":
+                new = ty.mk(z3.Store(ty.mem(recv.t), x.t, True), z3.If(had, ty.card(recv.t), ty.card(recv.t) + 1))
+            else:
+                new = ty.mk(z3.Store(ty.mem(recv.t), x.t, False), z3.If(had, ty.card(recv.t) - 1, ty.card(recv.t)))
+            self.assign(f.value, Val(ty, new, True), st, node, writeback=True)
+            return VNone
+        if isinstance(recv.ty, TSet) and name in ("add", "discard") and len(args) == 1:
+            ty = recv.ty
+            x = self.coerce(args[0], ty.key, st, node)
+            had = z3.Select(ty.mem(recv.t), x.t)
+            if name == "add":
+                new = ty.mk(z3.Store(ty.mem(recv.t), x.t, True), z3.If(had, ty.card(recv.t), ty.card(recv.t) + 1))
+            else:
+                new = ty.mk(z3.Store(ty.mem(recv.t), x.t, False), z3.If(had, ty.card(recv.t) - 1, ty.card(recv.t)))
+            self.assign(f.value, Val(ty, new, True), st, node, writeback=True)
+            return VNone
         raise Unsupported(f"method .{name} on {recv.ty}", node)
 
     # ---- builtins --------------------------------------------------------------------------------------
